@@ -549,7 +549,25 @@ def r8_no_recursion_on_file_contents(cx):
     cx.ob("R8", "R8/no-recursion-in-the-reader", not bad, "(call graph)", "%d functions, %d statically resolved call cycles, none through reader / bases / common code" % (len(g), len(comps)))
 
 
+def r9_checked_cuts_verify_on_every_path(cx):
+    """a pack header is parsed twice by the blind open: unchecked (to report a version change), then checked. What the
+    checked parse receives has gone through the CRC on every path of `Source::cut` under `block_check = Crc32` (= C05-R2 under
+    C06): a buffer kept from the unchecked cut and handed back for the checked one lets a damaged size or position through,
+    and the arithmetic behind it is guarded for verified values only (debug builds panic in `Region::cut_rel`)."""
+    import c05
+    orig = cx.ob
+
+    def ob(rule, key, *a, **kw):
+        return orig("R9", key.replace("R2/", "R9/", 1), *a, **kw)
+    cx.ob = ob
+    try:
+        c05.r2_source_matrix(cx)
+    finally:
+        cx.ob = orig
+
+
 RULES = [
+    ("R9", r9_checked_cuts_verify_on_every_path, 1),
     ("R8", r8_no_recursion_on_file_contents, 1),
     ("R1", r1_pool_task, 2),
     ("R2", r2_terminal_state, 2),
